@@ -76,6 +76,10 @@ def hostile_values(width_bytes):
             lambda m: st.lists(st.sampled_from(["\udc80", "\udce9", "\udcff", "\ud800", "\udc00", "x"]),
                                min_size=m, max_size=m).map("".join)),
         st.lists(st.integers(-2, 300), max_size=min(2 * n + 1, 270)),
+        # exactly the right length, one or all elements of the wrong kind
+        st.tuples(st.sampled_from([0.5, 1.5, 254.9, "7", b"\x01", None, True, float("nan"), -1, 256, [0], 0.25]),
+                  st.integers(0, n - 1), st.booleans()).map(
+            lambda t: [t[0]] * n if t[2] else [0] * t[1] + [t[0]] + [0] * (n - t[1] - 1)),
         st.sampled_from([[0] * n, [255] * n, [0] * (n + 1), [256] * n, [-1] * n,
                          # right length, wrong element type
                          [0.5] * n, [None] + [0] * (n - 1), ["a"] * n, [0] * (n - 1) + [b"\x01"], [[0]] * n,
